@@ -19,7 +19,8 @@ OBLIGATIONS = ['PGA.YamlFormat.' + t for t in [
     'C18_roundtrip_values_exact', 'C18_roundtrip_nd', 'C18_roundtrip_nd_exact', 'C18_temperatures_six_digits',
     'C18_dimensional_six_digits']]
 RULE = ('a case = one correlation (0-15 heat-capacity points; reference enthalpy/entropy present/absent/zero/negative/tiny/huge; '
-        'range present/absent; Python and NumPy float types; temperatures with up to 6 or with more significant digits) x one '
+        'range present/absent, and for correlations without a table also ranges that do not contain the reference temperature (above, '
+        'below, touching it, a single temperature); Python and NumPy float types; temperatures with up to 6 or with more significant digits) x one '
         'choice of output units (none = non-dimensional; any subset of enthalpy/entropy/heat-capacity units; temperature in K or a '
         'prefixed K), formatted with yaml_format and re-loaded both through yaml_io.load (tagged) and through GroupLibrary.Load of a '
         'file embedding the text; plus every group of every shipped library in 3 unit choices. Non-trivial: at least one datum present.')
@@ -76,6 +77,20 @@ def gen_corr(rng):
             rngv = (lo, rngv[1])
     else:
         rngv = None
+    if not Ts and rng.random() < 0.5:
+        # without a heat-capacity table the declared range is independent of the reference temperature (reference values measured
+        # at 298.15 K, a range of validity that starts at 300 K): entirely above it, entirely below it, touching it with one end,
+        # a single temperature away from it.  What is written is what must be read: a loader that "repairs" one field from
+        # another (stretches, clips, swaps, defaults) shows here and nowhere else
+        w = rng.choice([0.0, 1.85, 50.0, 700.0]) if exact6 else rng.uniform(0.0, 900.0)
+        d = rng.choice([0.35, 1.85, 10.0, 100.0]) if exact6 else rng.uniform(0.01, 150.0)
+        mode = rng.choice(['above', 'above', 'below', 'below', 'touch_lo', 'touch_hi'])
+        t = float(Tref)
+        rngv = {'above': (t + d, t + d + w), 'below': (t - d - w, t - d), 'touch_lo': (t, t + w), 'touch_hi': (t - w, t)}[mode]
+        if exact6:
+            rngv = (round(rngv[0], 2), round(rngv[1], 2))
+        if rngv[0] <= 0 or rngv[1] < rngv[0]:
+            rngv = (t + d, t + d + w)
     H = rnd_float(rng) * rng.choice([1, 10, 100]) if rng.random() < 0.8 else None
     S = rnd_float(rng) if rng.random() < 0.8 else None
     cp = [(T, rnd_float(rng)) for T in Ts]
@@ -176,6 +191,8 @@ def check_one(ctx, f, units, batch, label):
         return
     inp['text'] = text
     ctx.count('formatted')
+    if f['range'] is not None and not (float(f['range'][0]) <= float(f['Tref']) <= float(f['range'][1])):
+        ctx.count('range_without_Tref')
     nontrivial = f['H'] is not None or f['S'] is not None or f['cp'] or f['range'] is not None
     ctx.case(json.dumps([inp['corr'], sorted((k, str(v)) for k, v in units.items())]) if nontrivial else None,
              {'text': text, 'units': units} if len(ctx.samples) < 6 else None)
@@ -462,6 +479,11 @@ def run(ctx):
         for u in [{}, {'molar enthalpy': 'kcal/mol', 'molar entropy': 'cal/mol/K', 'molar heat capacity': 'cal/mol/K'},
                   {'molar enthalpy': 'kJ/mol', 'temperature': 'kK'}]:
             check_one(ctx, f, u, batch, 'zeros')
+    # no table, declared range away from the reference temperature, deterministically
+    for rg in [(300.0, 1000.0), (100.0, 250.0), (400.0, 400.0), (298.15, 298.15), (298.15, 1500.0), (200.0, 298.15)]:
+        f = {'H': 1.5, 'S': None if rg[0] == 400.0 else 2.5, 'cp': [], 'Tref': 298.15, 'range': rg, 'typ': 'py'}
+        for u in [{}, {'molar enthalpy': 'kJ/mol', 'molar entropy': 'J/mol/K', 'temperature': 'K'}]:
+            check_one(ctx, f, u, batch, 'range-away-from-Tref')
     ship = shipped_groups(ctx)
     ctx.count('shipped_groups', len(ship))
     choices = [{}, {'molar enthalpy': 'kcal/mol', 'molar entropy': 'cal/mol/K', 'molar heat capacity': 'cal/mol/K'},
@@ -477,7 +499,7 @@ def run(ctx):
     compare_batch(ctx, batch)
     check_float_assumption(ctx, rng)
     from .c12 import reach_floor
-    reach_floor(ctx, ['formatted', 'corr_c18.format', 'corr_c18.roundtrip', 'table_temperatures_rounded', 'shipped_groups'])
+    reach_floor(ctx, ['formatted', 'corr_c18.format', 'corr_c18.roundtrip', 'table_temperatures_rounded', 'shipped_groups', 'range_without_Tref'])
     if ctx.stats['shipped_groups'] < 500:
         raise common.MachineryError('only %d shipped groups were found' % ctx.stats['shipped_groups'])
 
